@@ -1239,6 +1239,109 @@ example : let rows := axisNV ["Thu", "Mon", "Fri", "Tue", "Wed"]; let cols := ax
         (r.1.Nodup ∧ ∀ x ∈ r.1, x ∈ cols) ∧ (r.2.Nodup ∧ ∀ x ∈ r.2, x ∈ rows) := by
   decide +kernel
 
+/-! ## `-n N` / top rows: the cut comes after the sort (round 4b) -/
+
+/-- **Which rows `histo -n N` (and every `ItemsSortedBy(N, …)` caller) shows is a function of the data**: the
+sorted sequence is cut AFTER sorting, so from every arrival order the answer is the first `N` rows of the one
+specified order (all rows if there are fewer than `N`; a negative `N` with `0 ≤ rows` is Go's slice panic). -/
+theorem top_n_deterministic (o : Oracle) (sets : List SortSet) (m : Mode) (rev : Bool)
+    (alg : List NV → Algo NV (List NV)) (hc : SortContract alg)
+    (items a1 a2 : List NV) (hnd : (items.map (·.name)).Nodup) (h1 : a1.Perm items) (h2 : a2.Perm items)
+    (hu : modeUniform o sets m (items.map (·.name)) = true) (count : Int) :
+    itemsSortedBy (fun s l => Algo.run (finalSorter o sets m rev).cmp s (alg l)) (finalSorter o sets m rev).init a1 count
+      = itemsSortedBy (fun s l => Algo.run (finalSorter o sets m rev).cmp s (alg l)) (finalSorter o sets m rev).init a2 count
+    ∧ itemsSortedBy (fun s l => Algo.run (finalSorter o sets m rev).cmp s (alg l)) (finalSorter o sets m rev).init a1 count
+      = minSlice (isort (finalSpecLess o sets items m rev) items) count := by
+  simp only [itemsSortedBy]
+  rw [sort_result o sets m rev alg hc items a1 hnd h1 hu, sort_result o sets m rev alg hc items a2 hnd h2 hu]
+  exact ⟨rfl, rfl⟩
+
+/-- `minSlice` is a prefix: for `0 ≤ N` the first `N` rows … -/
+theorem top_n_is_prefix {α : Type} (l : List α) (count : Int) (h : 0 ≤ count) :
+    minSlice l count = .ok (l.take count.toNat) := by
+  unfold minSlice
+  by_cases hlt : (l.length : Int) < count
+  · rw [if_pos hlt, List.take_of_length_le (by omega)]
+  · rw [if_neg hlt, if_neg (by omega)]
+
+/-- … and every row shown precedes every row cut off (`value`: no hidden row has a larger total than a shown one). -/
+theorem top_rows_precede_hidden {α : Type} {less : α → α → Bool} {items : List α} (hnd : items.Nodup)
+    (ho : OrderOn (· ∈ items) less) (n : Nat) :
+    ∀ x ∈ (isort less items).take n, ∀ y ∈ (isort less items).drop n, less x y = true := by
+  have hs := (isort_sorted hnd ho).2
+  rw [← List.take_append_drop n (isort less items), List.pairwise_append] at hs
+  exact fun x hx y hy => hs.2.2 x hx y hy
+
+/-- `value` (default, descending): a row that is cut off never has a larger total than a row that is shown. -/
+theorem top_n_largest_totals {items : List NV} (hnd : items.Nodup) (n : Nat) :
+    ∀ x ∈ (isort (revLess valueLess) items).take n, ∀ y ∈ (isort (revLess valueLess) items).drop n, y.value ≤ x.value := by
+  have ho : OrderOn (· ∈ items) (revLess valueLess) := (valueLess_strictTotal.mono (fun _ _ => trivial)).toOrderOn.rev
+  intro x hx y hy
+  have h := top_rows_precede_hidden hnd ho n x hx y hy
+  simp only [revLess, valueLess, byRank, lexLt, intLt, Bool.not_eq_true', Bool.or_eq_false_iff, decide_eq_false_iff_not] at h
+  omega
+
+/-- `--sort value` (descending) run by Go's insertion sort -/
+def cutRun : Unit → List NV → List NV × Unit :=
+  goInsertionSort (finalSorter (realOracle noDates) sortSets .value true).cmp
+
+def cutA1 : List NV := [⟨asc "a", 1⟩, ⟨asc "b", 5⟩, ⟨asc "c", 3⟩, ⟨asc "d", 9⟩, ⟨asc "e", 2⟩]
+def cutA2 : List NV := [⟨asc "d", 9⟩, ⟨asc "e", 2⟩, ⟨asc "a", 1⟩, ⟨asc "b", 5⟩, ⟨asc "c", 3⟩]
+
+/-- What must NOT happen (cut, then sort): the rows shown would depend on the map order – kernel computation on
+five rows with `-n 2`, two arrival orders, two different screens; the real order of the two steps gives one. -/
+theorem cut_before_sort_counterexample :
+    (itemsCutThenSorted cutRun () cutA1 2).toOption = some [⟨asc "b", 5⟩, ⟨asc "a", 1⟩]
+    ∧ (itemsCutThenSorted cutRun () cutA2 2).toOption = some [⟨asc "d", 9⟩, ⟨asc "e", 2⟩]
+    ∧ (itemsSortedBy cutRun () cutA1 2).toOption = some [⟨asc "d", 9⟩, ⟨asc "b", 5⟩]
+    ∧ (itemsSortedBy cutRun () cutA2 2).toOption = some [⟨asc "d", 9⟩, ⟨asc "b", 5⟩]
+    ∧ (itemsSortedBy cutRun () cutA1 7).toOption
+        = some [⟨asc "d", 9⟩, ⟨asc "b", 5⟩, ⟨asc "c", 3⟩, ⟨asc "e", 2⟩, ⟨asc "a", 1⟩]
+    ∧ (itemsSortedBy cutRun () cutA1 (-1)).toOption = none ∧ (itemsSortedBy cutRun () [] (-1)).toOption = none
+    ∧ cutA1.Perm cutA2 := by
+  decide +kernel
+
+/-- `ItemsSortedBy` / `minSlice` in the Go source are what the model mirrors: sort first, cut afterwards
+(regenerated skeletons). -/
+theorem top_n_matches_source :
+    Gen.C13.itemsSortedBySkel = [
+      (0, "assign", "items := s.Items()"),
+      (0, "expr", "sorting.SortBy(items, sorter, func(obj MatchPair) sorting.NameValuePair { return sorting.NameValuePair{ Name: obj.Name, Value: obj.Item.count, } })"),
+      (0, "return", "minSlice(items, count)")]
+    ∧ Gen.C13.minSliceSkel = [
+      (0, "if", "len(items) < count"),
+      (1, "return", "items"),
+      (0, "return", "items[:count]")] := by
+  decide +kernel
+
+/-- The glue between the aggregators, rare's `sort.Interface` wrapper and `sort.Sort` is what the model assumes
+(regenerated skeletons): `Less(i, j)` asks the closure about `(arr[i], arr[j])` in this order (`insertBack` /
+`Algo.ask`), `Swap` exchanges two slots, `Sort` / `SortBy` hand the wrapper to `sort.Sort` (not `sort.Stable`,
+no pre-processing), `Items` / `OrderedColumns` / `OrderedRows` collect from the map and sort with the caller's
+sorter on (name, total) – the column total `s.cols[name]`, the row sum `obj.sum`. -/
+theorem sort_wrappers_match_source :
+    Gen.C13.wrappedLessSkel = [(0, "return", "s.less(s.arr[i], s.arr[j])")]
+    ∧ Gen.C13.wrappedSwapSkel = [(0, "assign", "s.arr[i], s.arr[j] = s.arr[j], s.arr[i]")]
+    ∧ Gen.C13.wrappedLenSkel = [(0, "return", "len(s.arr)")]
+    ∧ Gen.C13.sortSkel = [(0, "assign", "ws := wrappedSorter[TElem]{arr, sorter}"), (0, "expr", "sort.Sort(&ws)")]
+    ∧ Gen.C13.sortBySkel = [
+      (0, "assign", "ws := wrappedSorter[TElem]{arr, func(a, b TElem) bool { return sorter(extractor(a), extractor(b)) }}"),
+      (0, "expr", "sort.Sort(&ws)")]
+    ∧ Gen.C13.itemsSkel = [
+      (0, "assign", "items := make([]MatchPair, 0, len(s.matches))"),
+      (0, "for", "key, val := range s.matches"),
+      (1, "assign", "items = append(items, MatchPair{ Item: *val, Name: key, })"),
+      (0, "return", "items")]
+    ∧ Gen.C13.orderedColumnsSkel = [
+      (0, "assign", "keys := s.Columns()"),
+      (0, "expr", "sorting.SortBy(keys, sorter, func(name string) sorting.NameValuePair { return sorting.NameValuePair{ Name: name, Value: s.cols[name], } })"),
+      (0, "return", "keys")]
+    ∧ Gen.C13.orderedRowsSkel = [
+      (0, "assign", "rows := s.Rows()"),
+      (0, "expr", "sorting.SortBy(rows, sorter, func(obj *TableRow) sorting.NameValuePair { return sorting.NameValuePair{ Name: obj.name, Value: obj.sum, } })"),
+      (0, "return", "rows")] := by
+  decide +kernel
+
 /-! ## non-vacuity -/
 
 /-- The assumed `sort.Sort` contract is satisfiable: insertion sort, written as a comparison tree,
